@@ -212,12 +212,14 @@ COMPONENTS = [
     Component('preludes', optchild.flagged('C19', check),
               bulk=optchild.make_bulk('C19', ['all-classes'], flags=('', '-bb'),
                                       preludes=('bases', 'subclass', 'partial',
-                                                'apifuzz')),
+                                                'apifuzz', 'traffic')),
               distinct_by_construction=True, shards={'quick': 1, 'thorough': 1},
               describe='the same sweep in child interpreters after an application-style '
                        'prelude (accessors on the abstract bases first; application '
                        'subclasses; an abandoned first iteration of every class; the '
-                       'public helper functions called with 1200 distinct arguments), '
+                       'public helper functions of every module called with 1200 '
+                       'distinct integers and with frames of every class; ordinary '
+                       'traffic through every class and flag combination), '
                        'also with -bb and under foreign locale environments'),
     Component('random', check, strategy=cases_strategy, nontrivial=nontrivial,
               classes=classes, budget={'quick': 13000, 'thorough': 650000},
